@@ -1237,6 +1237,9 @@ func (c *FCtx) execLabelLoop(st *State, x *ast.LabeledStmt, rest []ast.Stmt) []F
 	mod := c.dryRun(st, func(s *State) []Flow {
 		var out []Flow
 		for _, f := range run(s) {
+			if f.kind == fGoto && f.label == label {
+				f.kind = fNormal // the back edge of a goto loop: what it wrote must be forgotten at the head
+			}
 			out = append(out, f)
 		}
 		return out
